@@ -42,7 +42,7 @@ def implAttr (impl : String) : Bytes :=
   | _ :: h :: _ => (unhex h).getD []
   | _ => []
 
-def c10 (op : String) (args : List String) (impl : String) : Verdict :=
+def c10Inner (op : String) (args : List String) (impl : String) : Verdict :=
   let implOk := impl.startsWith "ok "
   match op, args with
   | "short", [v] =>
@@ -163,5 +163,11 @@ def c10 (op : String) (args : List String) (impl : String) : Verdict :=
       mk impl model [noCrash impl, ("accepts_exactly_wire_format", implOk == accept), ("decoded_value", valueOk)]
     | none => bad "hex"
   | _, _ => bad s!"op:{op}"
+
+/-- every encoder call returns a fresh slice (the harness scribbles over one result and calls again) -/
+def c10 (op : String) (args : List String) (impl : String) : Verdict :=
+  if impl == "encoder-result-shared" then
+    { agree := false, prop := "PROP_FAIL", model := "fresh slice per call", why := "encoder_results_are_fresh_not_shared" }
+  else c10Inner op args impl
 
 end RV.Driver
